@@ -187,14 +187,15 @@ theorem gensaltSha_shape (tag : UInt8) (maxsalt defc minc maxc count : Nat) (rb 
     (h4 : maxsalt % 4 = 0) (hdef : 1 ≤ defc) (hmin : 1 ≤ minc) (hmm : minc ≤ maxc)
     (h : gensaltSha tag maxsalt defc minc maxc count rb n osize = .ok S e) :
     ∃ c salt, S = [36, tag, 36] ++ (if c = defc then [] else [114, 111, 117, 110, 100, 115, 61] ++ toDec c ++ [36]) ++ salt ∧
-      1 ≤ c ∧ c ≤ maxc ∧ minc ≤ c ∧ (∀ x ∈ salt, x ∈ Gen.ascii64 ∧ x ∉ saltTerm) ∧ salt.length ≤ maxsalt := by
+      1 ≤ c ∧ c ≤ maxc ∧ minc ≤ c ∧ (∀ x ∈ salt, x ∈ Gen.ascii64 ∧ x ∉ saltTerm) ∧ salt.length ≤ maxsalt ∧
+      c = shaClamp defc minc maxc count := by
   unfold gensaltSha at h
   split at h; · cases h
   have hb := shaClamp_bounds defc minc maxc count hdef hmin hmm
   have hge : minc ≤ shaClamp defc minc maxc count := by
     unfold shaClamp; simp only []; repeat' split
     all_goals omega
-  generalize shaClamp defc minc maxc count = c at *
+  generalize hcdef : shaClamp defc minc maxc count = c at *
   unfold gensaltShaCore at h
   by_cases hcd : c = defc
   · subst hcd
@@ -205,7 +206,7 @@ theorem gensaltSha_shape (tag : UInt8) (maxsalt defc minc maxc count : Nat) (rb 
     obtain ⟨hS, _⟩ := h
     obtain ⟨sp1, sp2⟩ := shaSaltLoop_spec maxsalt n osize rb h4 (maxsalt + 1) ([36, tag, 36] : Bytes).length 0
     simp only [Nat.mul_zero, Nat.zero_add, Nat.max_def] at sp1 sp2
-    refine ⟨c, _, ?_, hb.1, hb.2, hge, sp1, by split at sp2 <;> omega⟩
+    refine ⟨c, _, ?_, hb.1, hb.2, hge, sp1, by split at sp2 <;> omega, rfl⟩
     rw [← hS]; simp
   · simp only [ne_eq, hcd, not_false_eq_true, if_true, if_false] at h
     split at h; · cases h
@@ -215,7 +216,7 @@ theorem gensaltSha_shape (tag : UInt8) (maxsalt defc minc maxc count : Nat) (rb 
     obtain ⟨sp1, sp2⟩ := shaSaltLoop_spec maxsalt n osize rb h4 (maxsalt + 1)
       ([36, tag, 36] ++ [114, 111, 117, 110, 100, 115, 61] ++ toDec c ++ [36] : Bytes).length 0
     simp only [Nat.mul_zero, Nat.zero_add, Nat.max_def] at sp1 sp2
-    refine ⟨c, _, ?_, hb.1, hb.2, hge, sp1, by split at sp2 <;> omega⟩
+    refine ⟨c, _, ?_, hb.1, hb.2, hge, sp1, by split at sp2 <;> omega, rfl⟩
     rw [← hS]; simp [hcd]
 
 theorem rounds_prefix_has_eq : ∃ x ∈ ([114, 111, 117, 110, 100, 115, 61] : Bytes), x ∉ Gen.ascii64 := ⟨61, by decide, by decide⟩
@@ -224,12 +225,12 @@ theorem accept_sha_gen (tag : UInt8) (pfx rp : Bytes) (sm d mn mx count : Nat) (
     (hpfx : pfx = [36, tag, 36]) (hrp : rp = [114, 111, 117, 110, 100, 115, 61]) (h4 : sm % 4 = 0) (hd : 1 ≤ d) (hmn : 1 ≤ mn) (hmm : mn ≤ mx)
     (hmx : mx ≤ ULONG_MAX)
     (h : gensaltSha tag sm d mn mx count rb n osize = .ok S e) (dig : ShaParsed → Bytes) :
-    ∃ P, parseSha pfx rp d mn mx sm S = .ok P ∧ S <+: emitSha pfx rp P (dig P) := by
-  obtain ⟨c, salt, hS, c1, c2, c3, hch, hlen⟩ := gensaltSha_shape tag sm d mn mx count rb n osize S e h4 hd hmn hmm h
+    ∃ P, parseSha pfx rp d mn mx sm S = .ok P ∧ S <+: emitSha pfx rp P (dig P) ∧ P.rounds = shaClamp d mn mx count := by
+  obtain ⟨c, salt, hS, c1, c2, c3, hch, hlen, hcc⟩ := gensaltSha_shape tag sm d mn mx count rb n osize S e h4 hd hmn hmm h
   subst hpfx; subst hrp
   have hp := parseSha_gensalt [36, tag, 36] [114, 111, 117, 110, 100, 115, 61] d mn mx sm c salt hmx hch hlen ⟨c3, c2, by omega⟩ rounds_prefix_has_eq
   rw [← hS] at hp
-  refine ⟨_, hp, ?_⟩
+  refine ⟨_, hp, ?_, by rw [← hcc]; dsimp only; split <;> rename_i hq <;> first | exact hq.symm | rfl⟩
   rw [hS]
   unfold emitSha
   by_cases hcd : c = d
@@ -240,7 +241,7 @@ theorem accept_md5 (count : Nat) (rb : Bytes) (n osize : Nat) (S : Bytes) (e : N
     (D : Digests) (p : Bytes) : ∃ H, cryptMd5 D p S = .ok H ∧ S <+: H := by
   unfold gensaltMd5 at h
   split at h; · cases h
-  obtain ⟨c, salt, hS, c1, c2, c3, hch, hlen⟩ := gensaltSha_shape 49 Gen.MD5_SALT_LEN_MAX 1000 1000 1000 1000 rb n osize S e (by decide) (by omega) (by omega) (by omega) h
+  obtain ⟨c, salt, hS, c1, c2, c3, hch, hlen, _⟩ := gensaltSha_shape 49 Gen.MD5_SALT_LEN_MAX 1000 1000 1000 1000 rb n osize S e (by decide) (by omega) (by omega) (by omega) h
   have hc : c = 1000 := by omega
   subst hc
   simp only [if_true, List.append_nil] at hS
@@ -253,13 +254,13 @@ theorem accept_md5 (count : Nat) (rb : Bytes) (n osize : Nat) (S : Bytes) (e : N
 
 theorem accept_sha256 (count : Nat) (rb : Bytes) (n osize : Nat) (S : Bytes) (e : Nat) (h : gensaltSha256 count rb n osize = .ok S e)
     (D : Digests) (p : Bytes) : ∃ H, cryptSha256 D p S = .ok H ∧ S <+: H := by
-  obtain ⟨P, hP, hpre⟩ := accept_sha_gen 53 Gen.sha256_salt_prefix Gen.sha256_rounds_prefix _ _ _ _ count rb n osize S e (by decide) (by decide)
+  obtain ⟨P, hP, hpre, _⟩ := accept_sha_gen 53 Gen.sha256_salt_prefix Gen.sha256_rounds_prefix _ _ _ _ count rb n osize S e (by decide) (by decide)
     (by decide) (by decide) (by decide) (by decide) (by decide) h (fun P => permEncode Gen.perm_sha256crypt (D.sha256crypt p P.salt P.rounds))
   exact ⟨_, by unfold cryptSha256; rw [hP], hpre⟩
 
 theorem accept_sha512 (count : Nat) (rb : Bytes) (n osize : Nat) (S : Bytes) (e : Nat) (h : gensaltSha512 count rb n osize = .ok S e)
     (D : Digests) (p : Bytes) : ∃ H, cryptSha512 D p S = .ok H ∧ S <+: H := by
-  obtain ⟨P, hP, hpre⟩ := accept_sha_gen 54 Gen.sha512_salt_prefix Gen.sha512_rounds_prefix _ _ _ _ count rb n osize S e (by decide) (by decide)
+  obtain ⟨P, hP, hpre, _⟩ := accept_sha_gen 54 Gen.sha512_salt_prefix Gen.sha512_rounds_prefix _ _ _ _ count rb n osize S e (by decide) (by decide)
     (by decide) (by decide) (by decide) (by decide) (by decide) h (fun P => permEncode Gen.perm_sha512crypt (D.sha512crypt p P.salt P.rounds))
   exact ⟨_, by unfold cryptSha512; rw [hP], hpre⟩
 
